@@ -42,17 +42,82 @@ def _wrap(args):
         faulthandler.cancel_dump_traceback_later()
 
 
-def run_pool(fn, tasks, workers=None, task_timeout=300, wall_cap=None, on_result=None):
+def _wrap_isolated(args):
+    """Run the task in a forked child of this worker.  The worker itself never
+    executes a task, so every task starts from the same process state (modules
+    imported, nothing compiled yet): process-wide caches filled by one seed cannot
+    leak into the next, and a failure found here reproduces in a fresh interpreter."""
+    import pickle
+    import traceback
+
+    r, w = os.pipe()
+    pid = os.fork()
+    if pid == 0:
+        code = 0
+        try:
+            os.close(r)
+            try:
+                data = pickle.dumps(("ok", _wrap(args)))
+            except BaseException as e:  # noqa: BLE001
+                data = pickle.dumps(("err", repr(e), traceback.format_exc()))
+            with os.fdopen(w, "wb") as f:
+                f.write(data)
+        except BaseException:  # noqa: BLE001
+            code = 1
+        finally:
+            os._exit(code)
+    os.close(w)
+    with os.fdopen(r, "rb") as f:
+        data = f.read()
+    os.waitpid(pid, 0)
+    if not data:
+        raise HarnessError("isolated task process died without a result (task %r)" % (args[1],))
+    kind, *rest = pickle.loads(data)
+    if kind == "ok":
+        return rest[0]
+    raise HarnessError("task raised %s\n%s" % (rest[0], rest[1]))
+
+
+_WARM = False
+
+
+def warm_imports():
+    """Import (only import) everything the tasks use lazily, in the parent, before
+    the workers are forked: isolated task processes then start warm.  Importing a
+    module executes no ufo2ft pipeline code, so the process state a task starts
+    from is still that of a fresh interpreter as far as the system under test goes."""
+    global _WARM
+    if _WARM:
+        return
+    _WARM = True
+    from . import seams
+
+    for pkg in ("ufo2ft", "ufoLib2", "defcon", "fontMath", "fontTools.ttLib", "fontTools.feaLib",
+                "fontTools.varLib", "fontTools.pens", "fontTools.cu2qu", "fontTools.qu2cu", "fontTools.otlLib",
+                "fontTools.designspaceLib", "fontTools.colorLib", "fontTools.ufoLib", "fontTools.misc",
+                "fontTools.cffLib", "fontTools.unicodedata", "fontTools.agl", "booleanOperations",
+                "pathops", "cffsubr", "compreffor", "fs.memoryfs", "fs.osfs", "fs.wrapfs", "fs.copy",
+                "fs.walk", "fs.tempfs", "pickle", "difflib", "uuid"):
+        try:
+            seams.preimport(pkg)
+        except Exception:  # noqa: BLE001 - optional package missing
+            pass
+
+
+def run_pool(fn, tasks, workers=None, task_timeout=300, wall_cap=None, on_result=None, isolate=True):
     """Run fn(task) for every task on a fork pool.  Results are returned in
     *task order* (so that aggregation is independent of completion order)."""
     workers = workers or min(16, os.cpu_count() or 1)
+    if isolate and os.environ.get("VERIF_NO_ISOLATE") != "1":
+        warm_imports()
     tasks = list(tasks)
     results = [None] * len(tasks)
     t0 = time.monotonic()
     if workers <= 1:
         _init(task_timeout)
+        runner = _wrap_isolated if (isolate and os.environ.get("VERIF_NO_ISOLATE") != "1") else _wrap
         for i, t in enumerate(tasks):
-            results[i] = _wrap((fn, t))
+            results[i] = runner((fn, t))
             if on_result:
                 on_result(results[i])
             if wall_cap and time.monotonic() - t0 > wall_cap:
@@ -61,7 +126,8 @@ def run_pool(fn, tasks, workers=None, task_timeout=300, wall_cap=None, on_result
     ctx = multiprocessing.get_context("fork")
     with ProcessPoolExecutor(max_workers=workers, mp_context=ctx, initializer=_init,
                              initargs=(task_timeout,)) as ex:
-        futs = {ex.submit(_wrap, (fn, t)): i for i, t in enumerate(tasks)}
+        runner = _wrap_isolated if (isolate and os.environ.get("VERIF_NO_ISOLATE") != "1") else _wrap
+        futs = {ex.submit(runner, (fn, t)): i for i, t in enumerate(tasks)}
         try:
             remaining = None if wall_cap is None else max(1.0, wall_cap - (time.monotonic() - t0))
             for fut in as_completed(futs, timeout=remaining):
